@@ -17,7 +17,7 @@ EPOCH_END = {
                                                        "(checked: last hydrogen_routines call in non_trivial)",
     "hydrogens/__init__.py::HydrogenRoutines.pka_switchstate": "unreachable legacy code",
 }
-SCOPE = ["hydrogens/structures.py", "hydrogens/optimize.py", "hydrogens/__init__.py", "debump.py"]
+SCOPE = ["hydrogens/structures.py", "hydrogens/optimize.py", "hydrogens/__init__.py", "debump.py", "cells.py"]
 
 
 def check(prog, rep):
@@ -450,7 +450,10 @@ def _ends_in(stmts, v, name_alias, getatom_alias):
 
 def _bucketed_param(f, v):
     """Atoms handed to the rigid movers are bucketed (they are residue atoms of an assigned cell map)."""
-    return f.key in ("debump.py::Debump.set_dihedral_angle",) and v == "atom"
+    if f.key in ("debump.py::Debump.set_dihedral_angle",) and v == "atom":
+        return True
+    # a method of the cell map itself that moves an atom it is handed: the atom is one of the map's atoms
+    return f.module.rel == "cells.py" and f.cls is not None and v in [a.arg for a in f.node.args.args[1:]]
 
 
 def _returns_out(f, v):
